@@ -274,6 +274,11 @@ SPECIAL_VALUES = [
     'total\\tenergy', 'line\\nbreak', 'C:\\data\\new\\results', '^\\s*(\\d+)\\s+\\1$', 'a\\\\b', 'ends-with\\',
     '\\', '\\\\', '\\g<0>', '\\g<name> \\0 \\1', '\\x41\\u0041', '$1 ${name} $& $$', '& && \\&', '{0} {} {name} {{x}}',
     '.* a+b (c|d)? ^e$ f|g', '* ? ~ ! # ; < > " \' `', 'tab\there', 'two  spaces',
+    # bytes that text-mode / line-oriented reading alters (the file is written byte-exactly; a final line feed is
+    # never used because stripping it is conventional and not judged)
+    'dos\r\nline', 'spinner 10\rspinner 20', 'ends-with-cr\r', '\rstarts-with-cr', 'cr\r\rcr', 'unix\nline',
+    '\nstarts-with-lf', 'ff\x0cvt\x0bfs\x1c', 'nel\u0085ls\u2028ps\u2029', '\ufeffbom-first', ' leading-space',
+    'trailing-space ',
 ]
 
 
@@ -359,6 +364,28 @@ def fam_repeating(family='repeating-stdout'):
 
 
 
+def fam_direct_suffix(names, family='direct-suffix'):
+    """a direct reference (reserved folders `input`, `data`) whose path ends with the name of a producer component,
+    next to a reference to that component, so that the component's short spelling is part of the direct reference
+    (`input/A:ref` / `A:ref`, `input/A:output` / `A:output`, `data/A/f.txt:ref|output` / `A/f.txt:ref|output`);
+    both declaration orders, both token orders, component in either stage and spelling."""
+    for n in names:
+        for comp in ((CONSUMER_STAGE, n), (0, n)):
+            for sc in psp(comp):
+                for dref, cm in (([None, 'input', n, 'ref', 'abs'], 'ref'),
+                                 ([None, 'input', n, 'output', 'abs'], 'sout'),
+                                 ([None, 'data', '%s/%s' % (n, FILE), 'ref', 'abs'], 'fref'),
+                                 ([None, 'data', '%s/%s' % (n, FILE), 'output', 'abs'], 'out')):
+                    c = mkref(comp, cm, sc)
+                    for order in ((0, 1), (1, 0)):
+                        base = [dref, c]
+                        refs = [base[i] for i in order]
+                        i_d, ic = order.index(0), order.index(1)
+                        yield case(family, refs, [['r', i_d, 'abs', 'bare'], ['r', ic, sc, 'key']])
+                        yield case(family, refs, [['r', ic, sc, 'bare'], ['l', '-i'], ['r', i_d, 'abs', 'key']])
+
+
+
 # --------------------------------------------------------------------------------------- families (thorough extension)
 def fam_pair_full(names, family='pair-full'):
     """pairs: independent wrappers (3x3), both token orders, declared spelling = used spelling; plus declared spelling
@@ -427,7 +454,7 @@ def core_cases():
     # triples in the fixed core leave out the neutral name `x` (it is part of every other family and of the
     # thorough triples)
     return itertools.chain(fam_pair(n), fam_triple([x for x in n if x != 'x']), fam_mixed(n), fam_lookalike(n),
-                           fam_literal(n), fam_methods(n), fam_direct(), fam_special_values(), fam_repeating())
+                           fam_literal(n), fam_methods(n), fam_direct(), fam_direct_suffix(n), fam_special_values(), fam_repeating())
 
 
 def extension_cases():
